@@ -42,7 +42,7 @@ CHECKS = {
         "DESIGN.md section 6/C07"),
     "C08": (
         "PBT evaluating the stated per-node position/losslessness predicates on every node of every LR tree and GLR forest tree under generated layout (ws and LAYOUT-rule comments), plus instrumented actions recording the positions callbacks receive",
-        "Exploration: for every sentence (all token strings up to 4-5 tokens, rendered with generated layout before, between and after tokens; single-character, multi-character and overlapping lexicons; ws-based and comment LAYOUT grammars) every node of the LR build_tree result and of up to 40-200 forest trees + get_first_tree is checked: integer in-bounds positions, terminal value = input slice, ordered non-overlapping siblings, children inside parents, layout_content+value concatenation reproduces the input, and the positions seen by actions (on the fly and via call_actions) equal the tree's.",
+        "Exploration: for every sentence (all token strings up to 4-5 tokens, rendered with generated layout before, between and after tokens; single-character, multi-character and overlapping lexicons; ws-based and comment LAYOUT grammars) every node of the LR build_tree result and of up to 40-200 forest trees + get_first_tree is checked: integer in-bounds positions, terminal value = input slice, ordered non-overlapping siblings, children inside parents, layout_content+value concatenation reproduces the input, and the positions seen by actions (on the fly and via call_actions) equal the tree's; for grammars whose every right-hand-side symbol is a named match, the objects built by the default obj action (LR on the fly, call_actions, GLR lazy/non-lazy trees) are walked in parallel with the parse tree: _pg_start_position/_pg_end_position and token values must agree node by node.",
         "Trusted: pv/ref_chart.py for sentence selection. Known finding D17 (GLR packed node keeps the span of its first alternative) relaxes only the three span-relation predicates on GLR trees and only when the disagreeing region consists of layout characters. LR and GLR placements of empty nodes are not compared with each other.",
         "DESIGN.md section 6/C08"),
     "C11": (
